@@ -25,6 +25,9 @@ states the same with the storage selections as explicit hypotheses.)
 
 * `wide_binOp_exact`, `wide_neg_exact` (last section) — results that need multi-word storage (`xBin`, `xNeg` of
                     `CnlModel/ElasticWide.lean`): the policy's digits, the exact value, inside the declared range.
+* `wide_divmod_identity`, `wide_divmod_roundtrip` — `/` and `%` over any storage: truncated quotient, `q·d + r = n`,
+                    `|r| < |d|`, remainder with the sign of the dividend; `(n / d) * d + n % d` evaluated in elastic
+                    arithmetic gives `n` back inside its declared range.
 
 Nothing is left unproved; the only part of the property that fails is the one refuted by
 `shrConst_refuted`.
@@ -409,6 +412,53 @@ theorem wide_neg_exact (x : ENum) (hx : x.InRange) :
       ((∀ m, neg x ≠ .ill m) → xNeg x = neg x) := by
   have ⟨h1, hf⟩ := xNeg_wf x hx
   exact ⟨_, h1, rfl, rfl, rfl, hf, xNeg_eq_neg x⟩
+
+/-- `/` and `%` together, whatever storage the operation needs (the multi-word `wide_integer` division routine
+included — its exactness is C10's theorem, its use by `elastic_integer` is validated by the `xbin div`, `xbin mod`
+lines of the correspondence table, which run divisors of 1, 2, 3, … limbs, every sign combination, dividends smaller
+than the divisor and Knuth "add-back" operands): for in-range operands and a non-zero divisor, quotient and remainder
+are the truncated quotient and its remainder, both inside their declared ranges, `q·d + r = n`, `|r| < |d|`, and the
+remainder carries the sign of the dividend -/
+theorem wide_divmod_identity (x y : ENum) (hx : x.InRange) (hy : y.InRange) (h0 : y.value ≠ 0) :
+    ∃ q r, xBin .div x y = .ok q ∧ xBin .mod x y = .ok r ∧ q.InRange ∧ r.InRange ∧
+      q.value = x.value.tdiv y.value ∧ r.value = x.value.tmod y.value ∧
+      q.value * y.value + r.value = x.value ∧ r.value.natAbs < y.value.natAbs ∧
+      (0 ≤ x.value → 0 ≤ r.value) ∧ (x.value ≤ 0 → r.value ≤ 0) := by
+  obtain ⟨q, hq, hqv, _, _, hqr, _⟩ := wide_binOp_exact .div x y hx hy (fun _ => h0) rfl
+  obtain ⟨r, hr, hrv, _, _, hrr, _⟩ := wide_binOp_exact .mod x y hx hy (fun _ => h0) rfl
+  have hqv' : q.value = x.value.tdiv y.value := hqv
+  have hrv' : r.value = x.value.tmod y.value := hrv
+  refine ⟨q, r, hq, hr, hqr, hrr, hqv', hrv', ?_, ?_, ?_, ?_⟩
+  · rw [hqv', hrv']; exact Int.tdiv_mul_add_tmod _ _
+  · rw [hrv', Int.natAbs_tmod]; exact Nat.mod_lt _ (Int.natAbs_pos.mpr h0)
+  · intro h; rw [hrv']; exact Int.tmod_nonneg _ h
+  · intro h; rw [hrv']
+    have h1 : 0 ≤ (-x.value).tmod y.value := Int.tmod_nonneg _ (by omega)
+    rw [Int.neg_tmod] at h1; omega
+
+/-- the identity evaluated in elastic arithmetic (`xident` lines): `(n / d) * d + n % d`, each operator applied to the
+elastic result of the one before, is defined, equals `n`, and lies inside the declared range of its (wider) type -/
+theorem wide_divmod_roundtrip (x y : ENum) (hx : x.InRange) (hy : y.InRange) (h0 : y.value ≠ 0) :
+    ∃ z, xDivModIdentity x y = .ok z ∧ z.value = x.value ∧ z.InRange := by
+  obtain ⟨q, r, hq, hr, hqr, hrr, _, _, hid, _⟩ := wide_divmod_identity x y hx hy h0
+  obtain ⟨p, hp, hpv, _, _, hpr, _⟩ := wide_binOp_exact .mul q y hqr hy (fun h => by cases h <;> contradiction) rfl
+  obtain ⟨z, hz, hzv, _, _, hzr, _⟩ := wide_binOp_exact .add p r hpr hrr (fun h => by cases h <;> contradiction) rfl
+  refine ⟨z, ?_, ?_, hzr⟩
+  · unfold xDivModIdentity
+    rw [hq, hr]
+    show (match xBin .mul q y with | .ok p => xBin .add p r | e => e) = _
+    rw [show xBin .mul q y = .ok p from hp]
+    exact hz
+  · rw [hzv]; show p.value + r.value = _
+    rw [hpv]; exact hid
+
+-- opposite signs, multi-word storage: the remainder has the sign of the dividend
+example : xDivModIdentity ⟨150, i32, -(100 * 2^140 + 100)⟩ ⟨150, i32, 1000⟩ = .ok ⟨301, i32, -(100 * 2^140 + 100)⟩
+    ∧ xBin .mod ⟨150, i32, -(100 * 2^140 + 100)⟩ ⟨150, i32, 1000⟩ = .ok ⟨150, i32, -700⟩
+    ∧ xBin .mod ⟨150, i32, 100 * 2^140 + 100⟩ ⟨150, i32, -1000⟩ = .ok ⟨150, i32, 700⟩ := by decide +kernel
+-- the classic add-back operands of Knuth's algorithm D (32-bit limbs)
+example : xBin .div ⟨160, i32, 0x7fffffff800000000000000000000000 * 2^64⟩ ⟨160, i32, 0x800000000000000000000001 * 2^64⟩
+    = .ok ⟨160, i32, 0xfffffffe⟩ := by decide +kernel
 
 -- 100-digit operands: the product needs 200 digits (two or more machine words), the sum 101
 example : binOp .mul ⟨100, i32, 2^100 - 1⟩ ⟨100, i32, -(2^100 - 1)⟩ = .ill "result digits exceed the widest integer"
